@@ -38,6 +38,20 @@ Theorem C07_message_type_irrelevant : forall c t0 ops (f : mtype -> mtype),
 Proof. exact (fun c t0 ops f => conj (T_retype_run src_shape c f t0 ops) (clean_retype c f ops)). Qed.
 Print Assumptions C07_message_type_irrelevant.
 
+(* a formatted message: what is measured AND written is the formatted text (set, possibly empty); the raw text is no parameter
+   of the sink - any two raw texts give the same world, hence the same verdict of every theorem above; and the record added is
+   the shown text plus its newline (C05_record_is_the_shown_text) *)
+Theorem C07_raw_text_of_a_formatted_message_irrelevant : forall c t0 ops ty raw raw' f,
+  run src_shape c t0 (ops ++ [WriteMsg ty raw (Some f)]) = run src_shape c t0 (ops ++ [WriteMsg ty raw' (Some f)]).
+Proof. exact (fun c t0 ops ty raw raw' f => T_raw_text_irrelevant src_shape c t0 ops ty raw raw' f). Qed.
+Print Assumptions C07_raw_text_of_a_formatted_message_irrelevant.
+Theorem C07_size_counts_the_shown_text : forall c t0 ops ty raw fmt, clean c ops -> let w := run src_shape c t0 ops in
+  hist (run src_shape c t0 (ops ++ [WriteMsg ty raw fmt])) =
+    hist w ++ [{| rbytes := shown_text raw fmt ++ [10%N]; rid := length (hist w); rday := day_of c (now w) |}]
+  /\ clean c (ops ++ [WriteMsg ty raw fmt]).
+Proof. exact (fun c t0 ops ty raw fmt H => conj (T_shown_text_written src_shape c t0 ops ty raw fmt C07_source_shape H) (clean_write_msg c ops ty raw fmt H)). Qed.
+Print Assumptions C07_size_counts_the_shown_text.
+
 (* the boolean oracle of the check *)
 Theorem C07_oracle_holds : forall c t0 ops, clean c ops -> let w := run src_shape c t0 ops in prop_c07_b std_shape c (snap_of w) = true.
 Proof. exact (fun c t0 ops H => proj1 (proj2 (proj2 (T_oracles src_shape C07_source_shape c t0 ops H)))). Qed.
@@ -48,4 +62,13 @@ Example C07_nonvacuous :
   let c := {| cL := 4; cN := 0; startup := false; daily := false; compress := false; cgran := G1ms; cbase := [97%N]; csuffix := []; ctz := 0 |} in
   let w := run src_shape c 0 [Write TInfo [120%N]; Write TFatal [120%N]; Write TDebug []; Write TWarning [1%N; 2%N; 3%N; 4%N; 5%N]; Write TFatal []] in
   (map (fun f => size (fcont f)) (rot w), size (act w)) = ([4; 1; 6], 1).
+Proof. vm_compute. reflexivity. Qed.
+
+(* non-vacuity for formatted messages: L = 4; three messages whose formatted text is EMPTY (1 byte each with the newline) over
+   a 5-byte raw text share one file, the fourth - no formatted text, the raw text shown - does not fit and rotates *)
+Example C07_formatted_empty_nonvacuous :
+  let c := {| cL := 4; cN := 0; startup := false; daily := false; compress := false; cgran := G1ms; cbase := [97%N]; csuffix := []; ctz := 0 |} in
+  let raw := [1%N; 2%N; 3%N; 4%N; 5%N] in
+  let w := run src_shape c 0 [WriteMsg TInfo raw (Some []); WriteMsg TInfo raw (Some []); WriteMsg TFatal raw (Some []); WriteMsg TInfo raw None] in
+  (map (fun f => size (fcont f)) (rot w), size (act w)) = ([3], 6).
 Proof. vm_compute. reflexivity. Qed.
